@@ -115,3 +115,66 @@ func ZZ_C34_ParseAddr() {
 func zzCaseBit(c byte) byte {
 	return byte(rt.IteU64(rt.And(c >= 'A', c <= 'Z'), 0x20, 0))
 }
+
+// zzIsIPv4: reference recogniser of dotted-quad IPv4 literals, written from the syntax (four decimal fields of
+// 1..3 digits, each <= 255, no leading zero in a multi-digit field), independent of net.ParseIP.
+func zzIsIPv4(h string) bool {
+	fields, digits, val, first := 0, 0, 0, byte(0)
+	for i := 0; i < len(h); i++ {
+		c := h[i]
+		switch {
+		case c >= '0' && c <= '9':
+			if digits == 0 {
+				first = c
+			}
+			digits++
+			if digits > 3 || (digits > 1 && first == '0') {
+				return false
+			}
+			val = val*10 + int(c-'0')
+			if val > 255 {
+				return false
+			}
+		case c == '.':
+			if digits == 0 || fields == 3 {
+				return false
+			}
+			fields++
+			digits, val = 0, 0
+		default:
+			return false
+		}
+	}
+	return fields == 3 && digits > 0
+}
+
+// ZZ_C34_IPLiterals: hosts long enough to be IPv4 literals, over an alphabet with digits that exercise the field
+// rules (0 for leading zeros, 2/5/6 for the 255 bound), dots and a letter. An IPv4 literal must be refused; a host
+// that is not one is accepted iff it has at least three labels.
+func ZZ_C34_IPLiterals() {
+	g := &Gateway{GatewayConfig: GatewayConfig{RootDomains: zzRoots}}
+	n := rt.Bound("iplen")
+	host := rt.String("host", n)
+	rt.Assume(len(host) >= 7)
+	for i := 0; i < len(host); i++ {
+		rt.Assume(rt.OneOf(host[i], "0256.a"))
+	}
+	_, err := g.extractHostname(host)
+	rt.ObserveBool("refused", err != nil)
+	if zzIsIPv4(host) {
+		rt.Assert(err != nil, "ip-literals-are-refused")
+		rt.Reach("ip-literal")
+	} else {
+		dots := 0
+		for i := 0; i < len(host); i++ {
+			if host[i] == '.' {
+				dots++
+			}
+		}
+		rt.Assert((err == nil) == (dots >= 2), "non-ip-host-accepted-iff-three-or-more-labels")
+		if dots >= 2 {
+			rt.Reach("dotted-but-not-an-ip")
+		}
+	}
+	rt.Reach("end")
+}
